@@ -1,1 +1,3 @@
+pub mod c03_certs;
+pub mod c04_admission;
 pub mod c15_merkle;
